@@ -474,9 +474,16 @@ impl<'a> Run<'a> {
         let path = self.store.status_path();
         // Write to a temporary file and move it into place so that the
         // status file is never left empty or half-written.
+        #[cfg(routinator_verif)]
+        crate::verif::kill_point("status.tmp_create", &path);
         let Ok(mut file) = self.store.tmp_file() else {
             return
         };
+        #[cfg(routinator_verif)]
+        crate::verif::kill_point_write(
+            "status.write", &path, &mut file,
+            |w| StoredStatus::new(Time::now()).write(w)
+        );
         if let Err(err) = StoredStatus::new(Time::now()).write(&mut file) {
             error!(
                 "Failed to write store status file {}: {}",
@@ -484,6 +491,8 @@ impl<'a> Run<'a> {
             );
             return
         }
+        #[cfg(routinator_verif)]
+        crate::verif::kill_point("status.persist", &path);
         if let Err(err) = file.persist(&path) {
             error!(
                 "Failed to write store status file {}: {}",
@@ -509,7 +518,13 @@ impl<'a> Run<'a> {
         }
         // Write to a temporary file and move it into place so that a
         // previously stored certificate is never left truncated.
+        #[cfg(routinator_verif)]
+        crate::verif::kill_point("ta.tmp_create", &path);
         let mut file = self.store.tmp_file()?;
+        #[cfg(routinator_verif)]
+        crate::verif::kill_point_write(
+            "ta.write", &path, &mut file, |w| w.write_all(content)
+        );
         if let Err(err) = file.write_all(content) {
             error!(
                 "Fatal: failed to write file {}: {}",
@@ -517,6 +532,8 @@ impl<'a> Run<'a> {
             );
             return Err(Failed)
         }
+        #[cfg(routinator_verif)]
+        crate::verif::kill_point("ta.persist", &path);
         if let Err(err) = file.persist(&path) {
             error!(
                 "Failed to persist temporary file {} to {}: {}",
@@ -670,6 +687,10 @@ impl Run<'_> {
                 }
                 else if entry.is_file() {
                     if !op(entry.path())? {
+                        #[cfg(routinator_verif)]
+                        crate::verif::kill_point(
+                            "cleanup.remove", entry.path()
+                        );
                         fatal::remove_file(entry.path())?;
                     }
                     else {
@@ -843,6 +864,8 @@ impl StoredPoint {
             header.update_status = UpdateStatus::LastAttempt(Time::now());
 
             drop(file);
+            #[cfg(routinator_verif)]
+            crate::verif::kill_point("point.rewrite.create", &path);
             let mut file = File::create(&path).map_err(|err| {
                 error!(
                     "Failed to update stored publication point at {}: \
@@ -861,6 +884,11 @@ impl StoredPoint {
                 );
                 return Err(Failed)
             }
+            #[cfg(routinator_verif)]
+            crate::verif::kill_point_write(
+                "point.rewrite.header", &path, &mut file,
+                |w| header.write(w)
+            );
             if let Err(err) = header.write(&mut file) {
                 error!(
                     "Failed to update stored publication point at {}: \
@@ -913,6 +941,8 @@ impl StoredPoint {
         if let Some(path) = path.parent() {
             fatal::create_dir_all(path)?;
         }
+        #[cfg(routinator_verif)]
+        crate::verif::kill_point("point.create.create", &path);
         let mut file = match File::create(&path) {
             Ok(file) => file,
             Err(err) => {
@@ -925,6 +955,10 @@ impl StoredPoint {
         };
         let header = StoredPointHeader::new(
             manifest_uri.clone(), rpki_notify.cloned(),
+        );
+        #[cfg(routinator_verif)]
+        crate::verif::kill_point_write(
+            "point.create.header", &path, &mut file, |w| header.write(w)
         );
         if let Err(err) = header.write(&mut file) {
             error!(
@@ -988,6 +1022,8 @@ impl StoredPoint {
         manifest: StoredManifest,
         objects: impl FnMut() -> Result<Option<StoredObject>, UpdateError>
     ) -> Result<(), UpdateError> {
+        #[cfg(routinator_verif)]
+        crate::verif::kill_point("point.update.tmp_create", &self.path);
         let tmp_file = store.tmp_file()?;
         self._update(tmp_file, manifest, objects)
     }
@@ -1002,6 +1038,14 @@ impl StoredPoint {
 
         self.header.update_status = UpdateStatus::Success(Time::now());
 
+        #[cfg(routinator_verif)]
+        {
+            let header = self.header.clone();
+            crate::verif::kill_point_write(
+                "point.update.header", &self.path, &mut tmp_file,
+                |w| header.write(w)
+            );
+        }
         if let Err(err) = self.header.write(&mut tmp_file) {
             error!(
                 "Fatal: failed to write to file {}: {}",
@@ -1009,6 +1053,11 @@ impl StoredPoint {
             );
             return Err(UpdateError::fatal())
         }
+        #[cfg(routinator_verif)]
+        crate::verif::kill_point_write(
+            "point.update.manifest", &self.path, &mut tmp_file,
+            |w| manifest.write(w)
+        );
         if let Err(err) = manifest.write(&mut tmp_file) {
             error!(
                 "Fatal: failed to write to file {}: {}",
@@ -1027,6 +1076,11 @@ impl StoredPoint {
             }
         };
         while let Some(object) = objects()? {
+            #[cfg(routinator_verif)]
+            crate::verif::kill_point_write(
+                "point.update.object", &self.path, &mut tmp_file,
+                |w| object.write(w)
+            );
             if let Err(err) = object.write(&mut tmp_file) {
                 error!(
                     "Fatal: failed to write to file {}: {}",
@@ -1048,6 +1102,8 @@ impl StoredPoint {
         // I think we need to drop `self.file` first so it gets closed and the
         // path unlocked on Windows?
         drop(self.file.take());
+        #[cfg(routinator_verif)]
+        crate::verif::kill_point("point.update.persist", &self.path);
         match tmp_file.persist(&self.path) {
             Ok(file) => self.file = Some(BufReader::new(file)),
             Err(err) => {
@@ -1086,6 +1142,8 @@ impl StoredPoint {
         self.manifest = None;
         self.file = None;
 
+        #[cfg(routinator_verif)]
+        crate::verif::kill_point("point.reject.create", &self.path);
         let mut file = match File::create(&self.path) {
             Ok(file) => file,
             Err(err) => {
@@ -1096,6 +1154,14 @@ impl StoredPoint {
                 return Err(Failed)
             }
         };
+        #[cfg(routinator_verif)]
+        {
+            let header = self.header.clone();
+            crate::verif::kill_point_write(
+                "point.reject.header", &self.path, &mut file,
+                |w| header.write(w)
+            );
+        }
         if let Err(err) = self.header.write(&mut file) {
             error!(
                 "Failed to write stored publication point at {}: {}",
@@ -1690,6 +1756,7 @@ mod test {
         assert!(point.next().is_none());
     }
 }
+
 
 
 //------------ Verification hooks (C30) --------------------------------------
